@@ -37,7 +37,7 @@ def configs(tier, seed):
                     'normalize': rng.random() < 0.5, 'coords': rng.choice(['default', 'default', 'supplied']),
                     'weighted': rng.random() < 0.3, 'forder': rng.random() < 0.3})
     out.append({'mask': 'circle', 'n': 7, 'modes': [4], 'normalize': True, 'coords': 'default'})
-    out += [{'mask': mk, 'n': 6, 'modes': [mo], 'normalize': nz, 'coords': 'default'} for mk in ('circle', 'offcentre') for mo in (2, 4, 6) for nz in (True, False)]
+    out += [{'mask': mk, 'n': 6, 'modes': [mo], 'normalize': nz, 'coords': 'default'} for mk in ('circle', 'offcentre') for mo in (1, 2, 4, 6) for nz in (True, False)]
     out.append({'mask': 'circle', 'n': 6, 'modes': [2, 3], 'normalize': True, 'coords': 'default'})
     out.append({'mask': 'circle', 'n': 7, 'modes': [3, 1, 2], 'normalize': False, 'coords': 'supplied'})
     return out, len(out), False
@@ -98,7 +98,13 @@ def run(W, cfg):
             W.ob_close(f'fit of a column-major OPD [{k}]', fitF[k], c[k], tol)
     if cfg['normalize']:
         # zernike_remove has no normalize argument: it works with normalised modes
+        O_before = O.copy()
         res = Z.zernike_remove(O, mask, modes, **kw)
+        W.ob('zernike_remove leaves the caller\'s OPD as it was', O, O_before)
+        W.ob_true('zernike_remove returns a new array', not W.same(res, O))
+        outside = [(r, cc) for r in range(mask.shape[0]) for cc in range(mask.shape[1]) if not mask[r, cc]][:6]
+        for (r, cc) in outside:
+            W.ob_close(f'outside the mask nothing is subtracted [{r},{cc}]', res[r, cc] * 1.0, 0.0, tol)
         refit = Z.zernike_fit(res, mask, modes, **kw)
         tol2 = 1e-9 * len(cells)
         for k in range(K):
